@@ -4,6 +4,7 @@ import (
 	"bytes"
 	"fmt"
 	"reflect"
+	"strings"
 )
 
 func frameTypes() []*Type {
@@ -400,6 +401,7 @@ func init() {
 		vals = append(vals, bigListValues(g, thorough)...)
 		var stream []byte
 		var streamVals []*Val
+		var streamSrc []*Val
 		for _, v := range vals {
 			r := goEnc(v, nil, BufMode{})
 			if r.Class != "ok" {
@@ -417,6 +419,7 @@ func init() {
 			if len(stream) < 1<<19 && len(r.Appended) < 1<<14 {
 				stream = append(stream, r.Appended...)
 				streamVals = append(streamVals, r.Val)
+				streamSrc = append(streamSrc, v)
 			}
 		}
 		// n back-to-back messages of mixed types recovered by n successive decodes from ONE buffer
@@ -441,6 +444,44 @@ func init() {
 		}
 		if okAll && buf.Len() != 0 {
 			o.violate(Violation{Property: "C07", Kind: "direct", What: "stream not fully consumed", Case: "stream (seeded)", Key: "stream-left"})
+		}
+		// the same messages ENCODED one after another into one buffer by the library itself (frames back-patch their length
+		// and checksum inside a buffer that already holds earlier frames), then recovered by n successive decodes
+		for start := 0; start < len(streamSrc); start += 40 {
+			endIx := min(start+40, len(streamSrc))
+			wbuf := new(bytes.Buffer)
+			var desc []string
+			good := true
+			for _, v := range streamSrc[start:endIx] {
+				obj := newObj(v)
+				c, _ := guard(func() error { return callEncode(obj, wbuf) })
+				if c != "ok" {
+					good = false
+					break
+				}
+				desc = append(desc, "enc - "+trunc(v.String(), 200))
+			}
+			if !good {
+				continue
+			}
+			rbuf := bytes.NewBuffer(append([]byte{}, wbuf.Bytes()...))
+			for i, want := range streamVals[start:endIx] {
+				obj := typeCtors[want.Ty]()
+				c, _ := guard(func() error { return obj.(decoder).Decode(rbuf) })
+				if c != "ok" || !valEq(readObj(obj), want) {
+					o.violate(Violation{Property: "C07", Kind: "direct", What: fmt.Sprintf("%d messages encoded one after another into one buffer: message %d is not recovered by the %d-th decode", endIx-start, i, i+1),
+						Case: strings.Join(desc[:i+1], " ; "), Expected: trunc(want.String(), 300), Observed: c + " " + trunc(readObj(obj).String(), 300), Key: "encoded-stream:" + tname(want.Ty)})
+					good = false
+					break
+				}
+			}
+			if good && rbuf.Len() != 0 {
+				o.violate(Violation{Property: "C07", Kind: "direct", What: "messages encoded one after another into one buffer: bytes left after the last decode", Case: strings.Join(desc, " ; "), Key: "encoded-stream-left"})
+			}
+			o.stat("encoded-stream")
+			if !good {
+				break
+			}
 		}
 		return map[string]any{"stream_messages": len(streamVals), "stream_bytes": len(stream)}
 	}
